@@ -191,6 +191,22 @@ theorem repr_single_attr (hs : List Hint) :
 
 theorem repr_none : reprOf [] = .ok .isize := rfl
 
+/-- Inside one `#[repr(..)]` the integer hint is found wherever it stands: other hints before it
+(`C`, `align(8)`, ..) and after it do not matter (`#[repr(u16, align(8))]`, `#[repr(C, u8)]`). -/
+theorem int_hint_found_anywhere (pre post : List Hint) (t : IntTy) (h : ∀ x ∈ post, x = Hint.other) :
+    attrRepr (pre ++ Hint.int t :: post) = some t := by
+  unfold attrRepr
+  rw [List.foldl_append, List.foldl_cons]
+  generalize (List.foldl (fun acc h => match h with | .int t => some t | .other => acc) none pre) = a
+  simp only
+  induction post generalizing a with
+  | nil => rfl
+  | cons x r ih =>
+    have hx : x = Hint.other := h x (by simp)
+    subst hx
+    simp only [List.foldl_cons]
+    exact ih (fun y hy => h y (by simp [hy])) a
+
 /-- Non-vacuity: `enum { A = 1 << 3, B, C(u8), D = 2 | 1, E }` (values 8, 9, 10, 3, 4). -/
 example : consts [⟨"A", true, some 8⟩, ⟨"B", true, none⟩, ⟨"C", false, none⟩, ⟨"D", true, some 3⟩,
     ⟨"E", true, none⟩] = [8, 9, 10, 3, 4] := by decide
